@@ -84,3 +84,21 @@ Proof.
   intros Hin. apply missing_fields_spec in Hin as [Hw Hm].
   apply code_keydata_option_blind; [exact Hm|]. intros ->. exact (c19_no_filePath Hw).
 Qed.
+
+(* ---- paths reach the key (fix 0208336): positive counterparts of the blindness lemmas,
+   for the regenerated key_fields / hdr_path_in_key *)
+Lemma code_keydata_path_visible o p q ts hs :
+  code_keydata o (mkU p ts hs) = code_keydata o (mkU q ts hs) -> p = q.
+Proof.
+  unfold code_keydata, hashdata, toolinfo. cbn [u_path u_toks u_hdrs key_fields map concat].
+  unfold flip_field. cbn [field_eqb]. intros E.
+  rewrite <- !app_assoc in E. repeat (apply app_inv_head in E). apply app_inv_tail in E. exact E.
+Qed.
+
+Lemma hashdata_hdrpath_visible e ti p ts hp hq hts hs :
+  hashdata e true ti (mkU p ts ((hp, hts) :: hs)) = hashdata e true ti (mkU p ts ((hq, hts) :: hs)) -> hp = hq.
+Proof.
+  unfold hashdata. cbn [u_toks u_hdrs map concat fst snd]. intros E.
+  apply app_inv_head in E. apply app_inv_head in E.
+  rewrite <- !app_assoc in E. apply app_inv_tail in E. exact E.
+Qed.
